@@ -173,6 +173,7 @@ def run(ck, ctx):
         got = nf.deep(F, "parse::Parser::new")
         flt = "%s[Not(phi{else => 0 | discr(arg2 as Ok.0.0) in [%d,%d] & discr(arg2) in [0,0] => 1})]()" % (L, ti["Comment"], ti["Comment"])
         ok = ("Iterator::filter(Iterator::map(Lexer::spanned(Logos::lexer(arg1))," in got) and flt in got and got.count("Iterator::filter(") == got.count(flt)
+        ok = ok or nf.is_verified_equivalent(F, "parse::Parser::new") is not None
         ck.ob("C03.3", "comments-filtered", ok, "the token vector is the lexer's output minus exactly the Comment tokens (errors kept): filter %s" % flt, "src/parse.rs:%s" % pn.line)
     nf.expect_deep(ck, F, "C03.3", "is_whitespace", "parse::lex::Token::is_whitespace", ["[discr(arg1) in [0,%d]] => 0 ; [discr(arg1) in [%d,%d]] => 1" % (ti["NewLine"] - 1, ti["NewLine"], ti["NewLine"])],
                    "only NewLine tokens count as blank", file="src/parse/lex.rs")
